@@ -1166,8 +1166,12 @@ func expandBoolLocals(g *Graph, e ast.Expr, depth int) (ast.Expr, bool) {
 		if d == nil {
 			return e, false
 		}
-		if _, isCall := ast.Unparen(d).(*ast.CallExpr); isCall {
-			return e, false
+		if c, isCall := ast.Unparen(d).(*ast.CallExpr); isCall {
+			// an argument-less observer on a variable / field path (q.IsIdempotent()) names a stable predicate
+			sel, isSel := ast.Unparen(c.Fun).(*ast.SelectorExpr)
+			if !isSel || len(c.Args) != 0 || !isFieldPath(sel.X) {
+				return e, false
+			}
 		}
 		in, _ := expandBoolLocals(g, d, depth+1)
 		return &ast.ParenExpr{X: in}, true
